@@ -524,7 +524,7 @@ class C16(Prop):
         'unconditional clauses',
         'presence of Content-Range on a 416 is not required (SHOULD), its value is checked when present',
     )
-    budget = {'quick': (900, 4), 'thorough': (15000, 16)}
+    budget = {'quick': (900, 4), 'thorough': (45000, 16)}
 
     # ------------------------------------------------------------------ process set-up
     def setup(self):
